@@ -137,6 +137,11 @@ def gen_cases(family, tier):
             if getattr(spec, "expect_decline", None):
                 c.cfgs[0]["expect_decline"] = spec.expect_decline
             cases.append(c)
+        for i in range(3 if tier == "quick" else 12):
+            r = core.rng("bind-many-helpers", i)
+            c = Case("mh%d" % i, family, F.fam_many_helpers(r, i))
+            c.cfgs = [{"opt": {"mv": "rust"}}]
+            cases.append(c)
         for i in range(max(10, n // 10)):
             # the push constant as the only module-scope variable, several entry points per
             # stage in interleaved order
@@ -889,7 +894,8 @@ def _build_campaign(family, tier, d):
     for c in cases:
         rr = res.get("%s|ref" % c.id)
         c.ref = rr.get("ref") if rr else None
-        ok_ref = c.ref and c.ref.get("parse") == "ok" and c.ref.get("valid_all") == "ok"
+        ok_ref = c.ref and c.ref.get("parse") == "ok" and (
+            c.ref.get("valid_all") == "ok" or getattr(c.spec, "parse_only", False))
         if not ok_ref:
             n_rej += 1
             c.frontend_rejected = True
